@@ -383,3 +383,33 @@ Example C01_full_dispatcher_is_unmodelled_on_sin : forall cb st,
 Proof. reflexivity. Qed.
 Example C01_power_was_unmodelled : forall cb l r st, fst (binop_impl cb Power l r st) = Unmodelled.
 Proof. reflexivity. Qed.
+
+(* ---- FunctionDef::call over the complete dispatcher never answers Unmodelled either ---- *)
+Theorem C01_call_never_unmodelled_all : forall o release d fr this f args st,
+  fst (AD release (binop_all o) (builtin_all o) d fr this f args st) <> Unmodelled.
+Proof. exact AD_all_no_unm. Qed.
+Check C01_call_never_unmodelled_all : forall o release d fr this f args st,
+  fst (AD release (binop_all o) (builtin_all o) d fr this f args st) <> Unmodelled.
+Print Assumptions C01_call_never_unmodelled_all.
+
+(* ---- the complete dispatcher is a CONSERVATIVE EXTENSION of the transcribed ones: wherever builtin_full
+        answers anything but Unmodelled, builtin_all o answers the same (for every oracle: the text of a value
+        without functions does not depend on how functions are printed); wherever binop_impl is modelled
+        (every operator but `^`), binop_all o is binop_impl.  So the correspondence runs and theorems about
+        builtin_full on modelled programs are also about builtin_all. ---- *)
+Require Import Blots.proofs.AllExtends.
+Theorem C01_all_extends_full : forall o cb b args st,
+  fst (builtin_full cb b args st) <> Unmodelled ->
+  builtin_all o cb b args st = builtin_full cb b args st.
+Proof. exact builtin_all_extends_full. Qed.
+Check C01_all_extends_full : forall o cb b args st,
+  fst (builtin_full cb b args st) <> Unmodelled ->
+  builtin_all o cb b args st = builtin_full cb b args st.
+Print Assumptions C01_all_extends_full.
+
+Theorem C01_operators_all_extend_impl : forall o cb op l r st,
+  op <> Power -> binop_all o cb op l r st = binop_impl cb op l r st.
+Proof. exact binop_all_extends_impl. Qed.
+Check C01_operators_all_extend_impl : forall o cb op l r st,
+  op <> Power -> binop_all o cb op l r st = binop_impl cb op l r st.
+Print Assumptions C01_operators_all_extend_impl.
